@@ -38,7 +38,7 @@ TRUSTED = [
     "C03 denials apply to paths below /proc/<pid> (any pid) and to native per-process calls; the /proc listing itself and /proc/net/* are system-wide and never denied",
 ]
 MANIFEST = {
-    "level_text": "Machine-checked Lean 4 proofs over a shallow state+exception monad model of psutil's Linux process layer and front end: for every modelled public Process method (C03_safe_<method>, assembled in C03_all_methods over the translator-generated public method list, un-modelled names listed explicitly) and EVERY admissible fault plan (the target turns zombie and/or disappears at any access index, at most one access is refused with EACCES/EPERM — a superset of the property's vanishAt/zombieFrom/denyAt/deny-then-vanish plans) the outcome is a well-formed value or NoSuchProcess/ZombieProcess/AccessDenied carrying the object's pid; loops (threads, open_files, net_connections, ppid_map, children, children(recursive=True) with its stack walk, as_dict, process_iter) by induction over the listed names / the walk's fuel so any number of threads/descriptors/PIDs and any process tree is covered; parents() is modelled and the full statement is proved FALSE of the current source (one denial while an ancestor is queried makes it raise NoSuchProcess/AccessDenied carrying the ancestor's pid: C03_parents_counterexample, known finding C03-parents-foreign-pid), with the weaker guarantee (psutil errors only, C03_safe_parents_partial) and the repaired loop (C03_safe_parents_repaired) proved; parsing-error constructors are proved unreachable; the bare FileNotFoundError re-raise of wrap_exceptions is proved unreachable under admissible plans (and reachable with two denials); C03_gone_is_NSP and its history forms: C03_gone_forever_from (the process vanishes at ANY access index k0, also in the middle of an earlier call; every call of any sequence of covered queries that starts at a counter >= k0 raises NoSuchProcess(pid)) and C03_gone_forever_flags (the same with the object's _gone/_pid_reused/_exe attributes threaded through the history, any flag values, is_running() answers False), C03_as_dict_policy, C03_process_iter_swallow. The fuel the model gives to the two while-loops is proved never to run out (C03_children_recursive_fuel_sufficient, C03_parents_fuel_sufficient: any ppid map incl. cycles). Outside the property's quantifier, as characterisation: a table over all modelled methods of what TWO refused accesses do (C03_two_denials_table_leaks: 6 concrete leaking plans, replayed on the real code; C03_two_denials_table_bounded: no pair leaks for the other 31 on the two-process world, bounded exhaustive). children() is proved safe for the repaired ppid_map and a counterexample plan is proved for the unrepaired one (lead L3). Tied to the code by translator facts (except tables, decorator tables) that feed the proof obligation cfg_good, and by an exhaustive single-fault (quick) / double-fault (thorough) differential run of the real methods against the model on fake procfs worlds, plus histories of several calls on ONE object with the vanish point at every index of the history (family history) and every pair of refused accesses on the small worlds (family two_denials). Round 3 (audit): the clause 'the class matches the cause' is in the Spec (Spec.Cause over the property's four plan shapes) and is REFUTED for the source as it is (C03_cause_counterexample: one refused access inside is_running()'s identity probe makes ppid/children/parent/parents raise NoSuchProcess for a live readable process — known finding C03-denied-probe-reads-as-reuse, no repair proposed: it conflicts with C05/C01's recycled-PID statements when the PID's current owner is unreadable); proved only BOUNDED-exhaustively (all plan shapes with indices < 12 / < 16 on the 2- and 3-process worlds: C03_cause_bounded_plain for the 32 queries outside _raise_if_pid_reused, C03_cause_bounded_unrepaired = exactly the probe refusals break it, C03_cause_bounded_repaired for a lenient probe) and decided in Lean on the REAL code's outcome for every property-shaped plan of the correspondence; is_running() never raises (C03_is_running_never_raises); as_dict() in its default form (attrs=None / []) is modelled, proved (C03_as_dict_default_policy) and driven; shape facts (statements inside each modelled try, oneshot()'s finally, as_dict's iteration list, the probe's comparison) feed the obligations cfg_shapes_good / cfg_running_probe_known. Landing of /repo d7107b4 (C05's repair: the lowest-PID stop of parent() runs self._raise_if_pid_reused() before it answers None): translator fact parentRootStop (total extractor: the statements of the stop and the statement before it, as text when unrecognised) feeds the model branch Fe.rootStop (one more open + read of /proc/<pid>/stat on the stop — on the object itself and on the ancestor object parents() reaches) and the obligation cfg_parent_root_guard; C03_safe_parent, C03_safe_parents_partial and C03_safe_parents_repaired keep their strength and cover the extra probe (it can only end in NoSuchProcess(pid) or let the stop answer None: rootStop_safe), concrete runs on the lowest-PID world in C03_parent_root_stop_probe (3 accesses instead of 1; gone -> NoSuchProcess instead of None; refused probe -> NoSuchProcess = region of finding C03-denied-probe-reads-as-reuse); on the real code the repeated parent()/parents() call after the process is gone must now raise NoSuchProcess for the lowest pid too (exemption removed). Seeded round 5 (C03-4, memory_maps() turned into a generator): two more dimensions. (1) WHEN a decorated body runs: total translator fact lazyBodies (every _pslinux.Process method whose call returns a lazily evaluated object: yield in its own scope, or a returned generator expression / map / filter / zip / iter / itertools / local or module-level generator call) feeds the model's W (such a body runs with no handler of the decorator), obligation cfg_eager_bodies + cfg_good (the list is empty for the source as it is), C03_wrapped_bodies_run_inside_handlers (every decorated name, every body), C03_lazy_body_escapes_wrapper (any configuration), and at run time every zero-argument decorated method of the real platform object is called and its result asked `iter(v) is v` — the set must equal the fact. (2) the OS access of a helper on a path OUTSIDE procfs that the body read out of a procfs record: worlds carry the mappings of smaps (ProcInfo.maps: anon | file | ' (deleted)' name with or without a file of that literal name; [] = empty record of a live process), memory_maps() is modelled with its per-mapping loop and path_exists_strict (clauses interpreted from fact existsStrictClauses; fact mapsDeletedProbe pins the probe), the stat is an access of the call (Path.mapFile, may be the refused one, independent of the state of the process) in the model and in the fault layer (FaultFS.ext); C03_safe_memory_maps / C03_memory_maps_any_mappings hold for any number of mappings of any kind (induction), C03_exists_strict_only_refusal, concrete runs C03_memory_maps_probe_runs, and the seeded change as proved counterexamples (C03_lazy_memory_maps_leaks, C03_lazy_memory_maps_not_safe: a lazy memory_maps(), or one without the decorator, leaks the bare PermissionError of the refused stat, also through as_dict()); generator family `maps` (structured + random + every kind sequence of length <= 2 / <= 3, through memory_maps(), memory_maps(grouped=False), as_dict, process_iter, histories). Partial: faults at OS-access granularity only; the os.stat of a descriptor's target inside open_files() (isfile_strict) is still not an access of the model; other processes are static during a call; the history theorems assume an inactive oneshot cache at the start of each call and exclude the documented memo answers (pid, create_time, a successful exe()); parent()/parents() depend on the module global _LOWEST_PID and are not history calls of the model; 'safe under any number of refusals' is only bounded-exhaustive (C03_multi_denial_safe_Full is not proved); 'never a parsing error' is relative to the content abstraction (files of a live or zombie process are well-formed except where the kernel empties them); no correspondence case has object != target or another process changing mid-call.",
+    "level_text": "Machine-checked Lean 4 proofs over a shallow state+exception monad model of psutil's Linux process layer and front end: for every modelled public Process method (C03_safe_<method>, assembled in C03_all_methods over the translator-generated public method list, un-modelled names listed explicitly) and EVERY admissible fault plan (the target turns zombie and/or disappears at any access index, at most one access is refused with EACCES/EPERM — a superset of the property's vanishAt/zombieFrom/denyAt/deny-then-vanish plans) the outcome is a well-formed value or NoSuchProcess/ZombieProcess/AccessDenied carrying the object's pid — 'well-formed' since seeded round 5 as Spec.WellFormed (the documented result shape of each query; an exception object handed back as the return value is the result of no query): C03_value_wellformed / C03_okv_* / C03_as_dict_values_wellformed / C03_process_iter_values_wellformed hold from EVERY context, so also for one refusal combined with alive->zombie->gone inside one call (C03_transition_plans_admissible), and the clause is decided in Lean on the object the REAL call returned and on every value an as_dict/process_iter result stores (generator family transition); loops (threads, open_files, net_connections, ppid_map, children, children(recursive=True) with its stack walk, as_dict, process_iter) by induction over the listed names / the walk's fuel so any number of threads/descriptors/PIDs and any process tree is covered; parents() is modelled and the full statement is proved FALSE of the current source (one denial while an ancestor is queried makes it raise NoSuchProcess/AccessDenied carrying the ancestor's pid: C03_parents_counterexample, known finding C03-parents-foreign-pid), with the weaker guarantee (psutil errors only, C03_safe_parents_partial) and the repaired loop (C03_safe_parents_repaired) proved; parsing-error constructors are proved unreachable; the bare FileNotFoundError re-raise of wrap_exceptions is proved unreachable under admissible plans (and reachable with two denials); C03_gone_is_NSP and its history forms: C03_gone_forever_from (the process vanishes at ANY access index k0, also in the middle of an earlier call; every call of any sequence of covered queries that starts at a counter >= k0 raises NoSuchProcess(pid)) and C03_gone_forever_flags (the same with the object's _gone/_pid_reused/_exe attributes threaded through the history, any flag values, is_running() answers False), C03_as_dict_policy, C03_process_iter_swallow. The fuel the model gives to the two while-loops is proved never to run out (C03_children_recursive_fuel_sufficient, C03_parents_fuel_sufficient: any ppid map incl. cycles). Outside the property's quantifier, as characterisation: a table over all modelled methods of what TWO refused accesses do (C03_two_denials_table_leaks: 6 concrete leaking plans, replayed on the real code; C03_two_denials_table_bounded: no pair leaks for the other 31 on the two-process world, bounded exhaustive). children() is proved safe for the repaired ppid_map and a counterexample plan is proved for the unrepaired one (lead L3). Tied to the code by translator facts (except tables, decorator tables) that feed the proof obligation cfg_good, and by an exhaustive single-fault (quick) / double-fault (thorough) differential run of the real methods against the model on fake procfs worlds, plus histories of several calls on ONE object with the vanish point at every index of the history (family history) and every pair of refused accesses on the small worlds (family two_denials). Round 3 (audit): the clause 'the class matches the cause' is in the Spec (Spec.Cause over the property's four plan shapes) and is REFUTED for the source as it is (C03_cause_counterexample: one refused access inside is_running()'s identity probe makes ppid/children/parent/parents raise NoSuchProcess for a live readable process — known finding C03-denied-probe-reads-as-reuse, no repair proposed: it conflicts with C05/C01's recycled-PID statements when the PID's current owner is unreadable); proved only BOUNDED-exhaustively (all plan shapes with indices < 12 / < 16 on the 2- and 3-process worlds: C03_cause_bounded_plain for the 32 queries outside _raise_if_pid_reused, C03_cause_bounded_unrepaired = exactly the probe refusals break it, C03_cause_bounded_repaired for a lenient probe) and decided in Lean on the REAL code's outcome for every property-shaped plan of the correspondence; is_running() never raises (C03_is_running_never_raises); as_dict() in its default form (attrs=None / []) is modelled, proved (C03_as_dict_default_policy) and driven; shape facts (statements inside each modelled try, oneshot()'s finally, as_dict's iteration list, the probe's comparison) feed the obligations cfg_shapes_good / cfg_running_probe_known. Landing of /repo d7107b4 (C05's repair: the lowest-PID stop of parent() runs self._raise_if_pid_reused() before it answers None): translator fact parentRootStop (total extractor: the statements of the stop and the statement before it, as text when unrecognised) feeds the model branch Fe.rootStop (one more open + read of /proc/<pid>/stat on the stop — on the object itself and on the ancestor object parents() reaches) and the obligation cfg_parent_root_guard; C03_safe_parent, C03_safe_parents_partial and C03_safe_parents_repaired keep their strength and cover the extra probe (it can only end in NoSuchProcess(pid) or let the stop answer None: rootStop_safe), concrete runs on the lowest-PID world in C03_parent_root_stop_probe (3 accesses instead of 1; gone -> NoSuchProcess instead of None; refused probe -> NoSuchProcess = region of finding C03-denied-probe-reads-as-reuse); on the real code the repeated parent()/parents() call after the process is gone must now raise NoSuchProcess for the lowest pid too (exemption removed). Seeded round 5 (C03-4, memory_maps() turned into a generator): two more dimensions. (1) WHEN a decorated body runs: total translator fact lazyBodies (every _pslinux.Process method whose call returns a lazily evaluated object: yield in its own scope, or a returned generator expression / map / filter / zip / iter / itertools / local or module-level generator call) feeds the model's W (such a body runs with no handler of the decorator), obligation cfg_eager_bodies + cfg_good (the list is empty for the source as it is), C03_wrapped_bodies_run_inside_handlers (every decorated name, every body), C03_lazy_body_escapes_wrapper (any configuration), and at run time every zero-argument decorated method of the real platform object is called and its result asked `iter(v) is v` — the set must equal the fact. (2) the OS access of a helper on a path OUTSIDE procfs that the body read out of a procfs record: worlds carry the mappings of smaps (ProcInfo.maps: anon | file | ' (deleted)' name with or without a file of that literal name; [] = empty record of a live process), memory_maps() is modelled with its per-mapping loop and path_exists_strict (clauses interpreted from fact existsStrictClauses; fact mapsDeletedProbe pins the probe), the stat is an access of the call (Path.mapFile, may be the refused one, independent of the state of the process) in the model and in the fault layer (FaultFS.ext); C03_safe_memory_maps / C03_memory_maps_any_mappings hold for any number of mappings of any kind (induction), C03_exists_strict_only_refusal, concrete runs C03_memory_maps_probe_runs, and the seeded change as proved counterexamples (C03_lazy_memory_maps_leaks, C03_lazy_memory_maps_not_safe: a lazy memory_maps(), or one without the decorator, leaks the bare PermissionError of the refused stat, also through as_dict()); generator family `maps` (structured + random + every kind sequence of length <= 2 / <= 3, through memory_maps(), memory_maps(grouped=False), as_dict, process_iter, histories). Partial: faults at OS-access granularity only; the os.stat of a descriptor's target inside open_files() (isfile_strict) is still not an access of the model; other processes are static during a call; the history theorems assume an inactive oneshot cache at the start of each call and exclude the documented memo answers (pid, create_time, a successful exe()); parent()/parents() depend on the module global _LOWEST_PID and are not history calls of the model; 'safe under any number of refusals' is only bounded-exhaustive (C03_multi_denial_safe_Full is not proved); 'never a parsing error' is relative to the content abstraction (files of a live or zombie process are well-formed except where the kernel empties them); no correspondence case has object != target or another process changing mid-call.",
     "level_note": "Trusted: Lean kernel + {propext, Classical.choice, Quot.sound}; translator; fault layer and correspondence harness; zombie/gone behaviour tables (validated live); file contents are abstracted to well-formed/empty classes (byte-level parsing is C06/C12/C13/C14).",
     "technique": "Lean 4 Hoare-style safety proofs over a fault-plan monad (generic wrap_safe + one body lemma per method, induction for loops) + translator-fed proof obligation + exhaustive fault-position differential correspondence",
     "design_ref": "DESIGN.md §5 C03",
@@ -268,8 +268,107 @@ def facts(snap, F):
               "psutil.Process.is_running: clauses")
     F.try_add("nameCatch", "List String", lambda: lstr(hs(fm()["name"], 0, 1)), "psutil.Process.name: around cmdline()")
     F.try_add("statusCatch", "List String", lambda: lstr(hs(fm()["status"], 0, 1)), "psutil.Process.status")
-    F.try_add("exeCatch", "List String", lambda: lstr(hs(fm()["exe"], 0, 2)), "psutil.Process.exe: around _proc.exe()")
-    F.try_add("exeGuessCatch", "List String", lambda: lstr(hs(fm()["exe"], 1, 2)), "psutil.Process.exe: around guess_it(fallback=exe)")
+    def _stmts(body):
+        return [ast.unparse(x).replace('"', "'") for x in body
+                if not (isinstance(x, ast.Expr) and isinstance(x.value, ast.Constant))]
+
+    def exe_own():
+        """exe() with its nested helper(s) cut out: the handlers of exe()'s OWN statements (the helper guess_it has facts
+        of its own — a try inside it must not shift the indices of these two)"""
+        fn = fm()["exe"]
+        return ast.FunctionDef(name="exe", args=fn.args, body=[s for s in fn.body if not isinstance(s, ast.FunctionDef)],
+                               decorator_list=[], lineno=fn.lineno, col_offset=0)
+    F.try_add("exeCatch", "List String", lambda: lstr(hs(exe_own(), 0, 2)), "psutil.Process.exe: around _proc.exe()")
+    F.try_add("exeGuessCatch", "List String", lambda: lstr(hs(exe_own(), 1, 2)), "psutil.Process.exe: around guess_it(fallback=exe)")
+
+    # ---- seeded round 5 (C03-5): which OBJECT a front-end method hands back. All three extractors are total.
+    def _guess_fn():
+        fn = fm().get("exe")
+        inner = [s for s in (fn.body if fn else []) if isinstance(s, ast.FunctionDef)]
+        return inner[0] if len(inner) == 1 and inner[0].name == "guess_it" else None
+
+    def _ret_tag(h):
+        """what a handler of guess_it ends in, in the model's vocabulary; anything else as text"""
+        body = [s for s in h.body if not (isinstance(s, ast.Expr) and isinstance(s.value, ast.Constant))]
+        if len(body) == 1:
+            st = body[0]
+            if isinstance(st, ast.Return) and isinstance(st.value, ast.Name) and st.value.id == "fallback":
+                return "return fallback"
+            if isinstance(st, ast.Raise) and isinstance(st.exc, ast.Name) and st.exc.id == "fallback" and st.cause is None:
+                return "raise fallback"
+            if isinstance(st, ast.Raise) and st.exc is None:
+                return "raise"
+        return " ;; ".join(_stmts(body)) or "<empty>"
+
+    def guess_clauses():
+        g = _guess_fn()
+        if g is None:
+            return extract.lean_list([(["<no single helper guess_it in exe()>"], "<missing>")],
+                                     lambda x: extract.lean_pair(lstr(x[0]), extract.lean_str(x[1])))
+        out = []
+        for names, h in handlers_of(g):
+            try:
+                scope = [t for t in ast.walk(g) if isinstance(t, ast.Try) and h in t.handlers][0]
+                inside = " ;; ".join(_stmts(scope.body))
+            except Exception:  # noqa: BLE001
+                inside = "?"
+            tag = _ret_tag(h)
+            if inside != "cmdline = self.cmdline()" or scope.orelse or scope.finalbody:
+                tag = "<try around: %s> %s" % (inside, tag)      # the model only knows a try around `self.cmdline()`
+            out.append((names, tag))
+        return extract.lean_list(out, lambda x: extract.lean_pair(lstr(x[0]), extract.lean_str(x[1])))
+    F.try_add("guessItClauses", "List (List String × String)", guess_clauses,
+              "psutil.Process.exe, helper guess_it(fallback): handlers around `cmdline = self.cmdline()` ([] = no try), "
+              "classes and what the handler ends in (return fallback | raise fallback | raise | text)")
+
+    def guess_tail():
+        g = _guess_fn()
+        if g is None:
+            return "<missing>"
+        body = [s for s in g.body if not (isinstance(s, ast.Expr) and isinstance(s.value, ast.Constant))]
+        # from the first top-level statement that mentions isinstance(fallback, …) on; the whole body when there is none
+        for i, st in enumerate(body):
+            if isinstance(st, ast.If) and "isinstance(fallback" in ast.unparse(st.test):
+                return " ;; ".join(x.replace("\n    ", " ") for x in _stmts(body[i:]))
+        return "<no isinstance(fallback, …) test> " + " ;; ".join(_stmts(body[-2:]))
+    F.try_add("guessItTail", "String", lambda: extract.lean_str(guess_tail()),
+              "guess_it(fallback): the statements from the `isinstance(fallback, AccessDenied)` test to the end")
+
+    def exc_value_flows():
+        """every use of a name bound by `except … as NAME` — in every method of psutil.Process (nested functions
+        included) and in process_iter — that is NOT `raise NAME`, `raise X from NAME`, an attribute read `NAME.attr` or a
+        `del`: the places where a caught exception OBJECT starts to travel as a value (returned, stored, passed on)"""
+        out = []
+
+        def scan(label, fn):
+            for t in ast.walk(fn):
+                if not isinstance(t, ast.Try):
+                    continue
+                for h in t.handlers:
+                    if not h.name:
+                        continue
+                    parents = {}
+                    for n in ast.walk(h):
+                        for c in ast.iter_child_nodes(n):
+                            parents[c] = n
+                    for n in ast.walk(h):
+                        if isinstance(n, ast.Name) and n.id == h.name and isinstance(n.ctx, ast.Load):
+                            par = parents.get(n)
+                            if isinstance(par, ast.Raise) or isinstance(par, ast.Attribute):
+                                continue
+                            st = par
+                            while st is not None and not isinstance(st, ast.stmt):
+                                st = parents.get(st)
+                            out.append("%s: %s" % (label, ast.unparse(st if st is not None else par).split("\n")[0]))
+        for nm, fn in sorted(fm().items()):
+            scan(nm, fn)
+        try:
+            scan("process_iter", extract.find_def(ini, "process_iter"))
+        except Exception:  # noqa: BLE001
+            out.append("process_iter: <missing>")
+        return lstr(sorted(set(out)))
+    F.try_add("excValueFlows", "List String", exc_value_flows,
+              "uses of an `except … as NAME` name other than raise / attribute read, per front-end method")
     F.try_add("wrapped", "List String",
               lambda: lstr(sorted(k for k, v in pm().items() if "wrap_exceptions" in extract.decorators(v))),
               "_pslinux.Process methods carrying @wrap_exceptions")
@@ -319,10 +418,6 @@ def facts(snap, F):
 
     # ---- round 3: facts about WHAT sits inside the handlers / tries (total extractors: an unrecognised shape is
     # ---- returned as text, so the obligation theorem fails with the new value instead of the fact being skipped)
-
-    def _stmts(body):
-        return [ast.unparse(x).replace('"', "'") for x in body
-                if not (isinstance(x, ast.Expr) and isinstance(x.value, ast.Constant))]
 
     def running_probe():
         """is_running(): what the try does with the fresh probe `Process(self.pid)`.
@@ -924,6 +1019,9 @@ AD = _AdValue()
 
 
 def shape(ps, v):
+    """the shape of a RETURNED object, in the vocabulary of the model's `Val` (Driver/C03.lean `parseShape`); an exception
+    INSTANCE handed back as a value is ["exc", class, pid], anything of no documented type ["unknown", type name] —
+    `Spec.WellFormed` (decided in Lean) accepts neither for any call"""
     if isinstance(v, bool):
         return ["bool", v]
     if isinstance(v, int):
@@ -934,6 +1032,9 @@ def shape(ps, v):
         return "str" if v else "estr"
     if v is None:
         return "none"
+    if isinstance(v, BaseException):
+        pid = getattr(v, "pid", None)
+        return ["exc", type(v).__name__, pid if isinstance(pid, int) and not isinstance(pid, bool) else None]
     if isinstance(v, dict):
         return "dict"
     if isinstance(v, ps.Process):
@@ -946,7 +1047,14 @@ def shape(ps, v):
 
 
 def asdict_shape(d):
-    return ["asdict", len(d), sorted(k for k, v in d.items() if v is AD)]
+    """[asdict, number of keys, names that got ad_value, names whose stored value is an exception OBJECT]"""
+    return ["asdict", len(d), sorted(k for k, v in d.items() if v is AD),
+            sorted(k for k, v in d.items() if isinstance(v, BaseException))]
+
+
+def asdict_vals(ps, d):
+    """[name, shape] of every stored value that is not ad_value: each must be the documented result of `name`"""
+    return [[k, shape(ps, v)] for k, v in sorted(d.items()) if v is not AD]
 
 
 def do_call(ps, proc, call):
@@ -956,17 +1064,18 @@ def do_call(ps, proc, call):
         if m == "rlimit":
             v = proc.rlimit(ps.RLIMIT_NOFILE)
         elif m == "as_dict":
-            return {"kind": "ok", "shape": asdict_shape(proc.as_dict(attrs=call["attrs"], ad_value=AD))}
+            d = proc.as_dict(attrs=call["attrs"], ad_value=AD)
+            return {"kind": "ok", "shape": asdict_shape(d), "vals": asdict_vals(ps, d)}
         elif m == "as_dict_all":
             # the DEFAULT form: attrs=None means every name of _as_dict_attrnames (call["attrs"] = that set's iteration
             # order, for the model only); `variant` "empty" passes attrs=[] (`ls = attrs or valid_names`: the same)
-            if call.get("variant") == "empty":
-                return {"kind": "ok", "shape": asdict_shape(proc.as_dict(attrs=[], ad_value=AD))}
-            return {"kind": "ok", "shape": asdict_shape(proc.as_dict(ad_value=AD))}
+            d = proc.as_dict(attrs=[], ad_value=AD) if call.get("variant") == "empty" else proc.as_dict(ad_value=AD)
+            return {"kind": "ok", "shape": asdict_shape(d), "vals": asdict_vals(ps, d)}
         elif m == "process_iter":
             ps._pmap = {}
             ls = list(ps.process_iter(attrs=call["attrs"], ad_value=AD))
-            return {"kind": "ok", "shape": ["iter", [[p.pid] + asdict_shape(p.info)[1:] for p in ls]]}
+            return {"kind": "ok", "shape": ["iter", [[p.pid] + asdict_shape(p.info)[1:] for p in ls]],
+                    "vals": [x for p in ls for x in asdict_vals(ps, p.info)]}
         elif m == "children":
             return {"kind": "ok", "shape": ["procs", [c.pid for c in proc.children()]]}
         elif m == "children_recursive":
@@ -992,8 +1101,15 @@ def do_call(ps, proc, call):
 
 
 def attr_order(attrs):
-    """the order in which as_dict iterates `set(attrs)` in this interpreter"""
-    return list(set(attrs))
+    """the order in which as_dict iterates `set(attrs)` in this interpreter — as a FIXED POINT: as_dict builds its own
+    set from the list it is given, and the iteration order of a set depends on the insertion order when hashes collide"""
+    cur = list(set(attrs))
+    for _ in range(16):
+        nxt = list(set(cur))
+        if nxt == cur:
+            break
+        cur = nxt
+    return cur
 
 
 GETTERS_SKIP = {"pid"}
@@ -1124,7 +1240,12 @@ def in_probe_region(inp, out, trace):
 
 
 def line_for(call, plan, impl, ntrace=None):
-    d = {"op": "run", "method": call["method"], "attrs": call.get("attrs", []), "plan": plan, "impl": impl}
+    attrs = call.get("attrs", [])
+    if call["method"] in ("as_dict", "process_iter"):
+        # as_dict builds `set(attrs)` from the list it is GIVEN and iterates that: the model gets exactly that order
+        # (list(set(.)) need not be idempotent when hashes collide, so `attr_order` alone does not guarantee it)
+        attrs = list(set(attrs))
+    d = {"op": "run", "method": call["method"], "attrs": attrs, "plan": plan, "impl": impl}
     if ntrace is not None and is_property_plan(plan) and call["method"] != "process_iter":
         d["cause_k1"] = ntrace
     return d
@@ -1183,10 +1304,20 @@ def judge(res, inp, out, trace, unknown, later, m, known=()):
              nontrivial=(fam != "none"),
              sample={"call": call, "plan": plan, "impl": out, "trace": trace} if fam in ("deny+gone", "zombie") and len(trace) > 4 else None)
     spec = m["spec"]
+    if spec.get("value") is not None:
+        res.count("value_checked")                 # Spec.WellFormed decided in Lean on the object the REAL call returned
+        res.count("value_checked:" + fam)
+    if spec.get("value") is False:
+        res.count("value_illformed:" + call["method"])
     if not spec["ok"]:
         fid = FINDING_PARENTS if (FINDING_PARENTS in known and in_parents_region(inp, out, spec)) else None
-        res.disagree("spec", inp, out, m["model"], {"ok": "value or NoSuchProcess/ZombieProcess/AccessDenied(pid=%d)" % inp["world"]["target"]},
-                     note="%s under %s leaks %s" % (call["method"], json.dumps(plan), json.dumps(out)), finding=fid)
+        if spec.get("value") is False:
+            note = ("%s under %s RETURNED %s: not the documented result of the call (an exception object / a value of another "
+                    "type handed back instead of raised)" % (call["method"], json.dumps(plan), json.dumps(out)))
+        else:
+            note = "%s under %s leaks %s" % (call["method"], json.dumps(plan), json.dumps(out))
+        res.disagree("spec", inp, out, m["model"], {"ok": "well-formed value of %s or NoSuchProcess/ZombieProcess/AccessDenied(pid=%d)" % (call["method"], inp["world"]["target"])},
+                     note=note, finding=fid)
         if fid is None:
             return
         # inside the region of the known finding: still require model == implementation below
@@ -1227,7 +1358,7 @@ def judge(res, inp, out, trace, unknown, later, m, known=()):
         res.disagree("model", inp, {"unknown_access": unknown}, m["model"], None,
                      note="an OS access of a kind the model does not know")
         return
-    if out != m["model"]:
+    if {k: v for k, v in out.items() if k != "vals"} != m["model"]:
         res.disagree("model", inp, out, m["model"], spec, note="outcome differs from the Lean model")
         return
     if trace != m["trace"]:
@@ -1532,6 +1663,128 @@ def explore_maps_family(ctx, res, batch):
     return total
 
 
+# ------------------------------------------------------------------------------ family `transition` (seeded round 5, C03-5)
+
+# front-end methods with a fallback / handler of their OWN around the platform call (exe -> guess_it -> cmdline, name ->
+# cmdline, status, username -> uids + pwd, cwd, ppid / parent through the identity probe) and the plain reads they fall back to
+FALLBACK_METHODS = ("exe", "name", "username", "cwd", "status", "cmdline", "terminal", "ppid", "parent", "environ")
+TRANSITION_DICTS = [
+    {"method": "as_dict", "attrs": ["exe"]},
+    {"method": "as_dict", "attrs": ["exe", "name", "username", "cwd"]},
+    {"method": "as_dict", "attrs": ["name", "status", "cmdline", "exe", "pid"]},
+    {"method": "process_iter", "attrs": ["pid", "exe", "name"]},
+]
+
+
+def transition_worlds():
+    """the fallbacks take different branches: short / long name (name() consults cmdline), cmdline[0] an executable
+    absolute path or not (guess_it succeeds or falls through to `fallback`)"""
+    T = 105
+    out = []
+    for long in (False, True):
+        for guess in (False, True):
+            out.append({"target": T, "family": "transition",
+                        "procs": [mk_proc(101, 1, 50), mk_proc(T, 101, 100, long=long, guess=guess)]})
+    return out
+
+
+def transition_triples(bw, call, errnos=("EACCES",), step=1, lmax=None):
+    """EVERY (refusal at i) x (alive -> zombie at j) x (zombie -> gone at l > j), i and j in any order: the refusal is
+    placed on the fault-free trace, the zombie switch on the trace of the run with the refusal, the vanish on the
+    trace of the run with both (so every index means an access the REAL code performs under the faults so far).
+    Yields (plan, outcome, trace, unknown)."""
+    base_out, base_trace, _, _ = bw.run(call, {})
+    for i, acc in enumerate(base_trace):
+        if not scoped(acc) or i % step:
+            continue
+        for e in errnos:
+            d = {"deny": [[i, e]]}
+            _, t1, _, _ = bw.run(call, d)
+            for j in range(0, len(t1)):
+                p2 = dict(d, switch=[[j, "zombie"]])
+                o2, t2, u2, _ = bw.run(call, p2)
+                yield p2, o2, t2, u2                # (zombie first, refusal later) and (refusal, then zombie) pairs
+                ls = range(j + 1, len(t2) + 1)
+                if lmax is not None:
+                    ls = [x for x in ls if x - j <= lmax or x == len(t2)]
+                for l in ls:
+                    p3 = dict(d, switch=[[j, "zombie"], [l, "gone"]])
+                    o3, t3, u3, _ = bw.run(call, p3)
+                    yield p3, o3, t3, u3
+
+
+def random_triple(rng, trace):
+    n = len(trace)
+    scoped_idx = [k for k, a in enumerate(trace) if scoped(a)]
+    if not scoped_idx or n < 2:
+        return None
+    i = rng.choice(scoped_idx)
+    j = rng.randrange(0, n)
+    l = rng.randrange(j + 1, n + 2)
+    return {"deny": [[i, rng.choice(["EACCES", "EPERM"])]], "switch": [[j, "zombie"], [l, "gone"]]}
+
+
+def explore_transition_family(ctx, res, batch):
+    """family `transition`: ONE refused access combined with the process going alive -> zombie -> gone at LATER (or
+    earlier) accesses of the same call, for the front-end methods with nested fallbacks and for as_dict / process_iter
+    over them. exhaustive: every triple for every fallback method on the four (long, guess) two-process worlds;
+    structured: the dict / iterator calls on the same worlds (vanish within 2 accesses of the zombie switch, or at the
+    end) and the fallback methods on the richer fixed worlds 1, 2, 4; random: random triples for random calls on random
+    worlds. Every outcome's VALUE is judged by Spec.WellFormed in Lean (`value_checked`)."""
+    ps = ctx.psutil
+    thorough = ctx.tier == "thorough"
+    total = 0
+
+    def feed(bw, call, gen, sub):
+        n = 0
+        for plan, out, trace, unk in gen:
+            batch.add(bw, call, plan, out, trace, unk)
+            n += 1
+        res.count("family:transition", n)
+        res.count("family:transition:" + sub, n)
+        res.count("transition_call:" + call["method"], n)
+        return n
+
+    for spec in transition_worlds():
+        bw = BuiltWorld(ps, spec)
+        try:
+            for m in FALLBACK_METHODS:
+                total += feed(bw, {"method": m}, transition_triples(bw, {"method": m}, errnos=("EACCES", "EPERM") if thorough else ("EACCES",)), "exhaustive")
+            for call in TRANSITION_DICTS:
+                call = dict(call, attrs=attr_order(call["attrs"]))
+                quick_l = 1 if call["method"] == "process_iter" else 2
+                total += feed(bw, call, transition_triples(bw, call, step=1 if thorough else 2, lmax=None if thorough else quick_l), "structured")
+        finally:
+            bw.close()
+        batch.flush()
+    fixed = fixed_worlds()
+    for wi in (1, 2, 4):
+        bw = BuiltWorld(ps, dict(fixed[wi], family="transition"))
+        try:
+            for m in FALLBACK_METHODS[:6]:
+                total += feed(bw, {"method": m}, transition_triples(bw, {"method": m}, lmax=None if thorough else 3), "structured")
+        finally:
+            bw.close()
+        batch.flush()
+    for _ in range(ctx.n(2, 8) if ctx.budget_factor == 1 else 6):
+        spec = dict(random_world(ctx.rng), family="transition")
+        bw = BuiltWorld(ps, spec)
+        try:
+            calls = calls_for(ps, ctx.tier, all_attrs=False)
+            for _ in range(ctx.n(40, 200) if ctx.budget_factor == 1 else 120):
+                call = ctx.rng.choice(calls)
+                _, base_trace, _, _ = bw.run(call, {})
+                plan = random_triple(ctx.rng, base_trace)
+                if plan is None:
+                    continue
+                out, trace, unk, _ = bw.run(call, plan)
+                total += feed(bw, call, [(plan, out, trace, unk)], "random")
+        finally:
+            bw.close()
+        batch.flush()
+    return total
+
+
 def lazy_fact(ctx):
     """the value of the fact `lazyBodies` the model of THIS run was built with (Generated/C03.lean, written by the
     translator at the start of the run); None when it cannot be read (then the translator already reported it)"""
@@ -1643,6 +1896,7 @@ def correspond(ctx, res):
                      note="platform methods whose result is a lazy iterator at run time %s differ from the translator fact "
                           "lazyBodies %s the model runs with" % (sorted(lazy), sorted(declared)))
     total += explore_maps_family(ctx, res, batch)
+    total += explore_transition_family(ctx, res, batch)
     for wi, spec in enumerate(worlds):
         bw = BuiltWorld(ps, spec)
         try:
@@ -1780,25 +2034,34 @@ def shrink(ctx, d):
     if "world" not in inp or inp.get("later"):
         return d
     ps = ctx.psutil
-    call = inp["call"]
-    # smallest worlds first, single faults only
+    # smallest worlds first; the call itself, then (for as_dict / process_iter) each named getter on its own; single
+    # faults first, then every pair the double-fault generator knows (refusal -> zombie / gone, zombie -> gone / refusal)
+    calls = [inp["call"]]
+    if inp["call"]["method"] in ("as_dict", "as_dict_all", "process_iter"):
+        calls = [{"method": a} for a in inp["call"].get("attrs", []) if a != "pid"][:30] + calls
     cands = fixed_worlds()[:2] + [inp["world"]]
-    for spec in cands:
-        bw = BuiltWorld(ps, spec)
-        try:
-            base_out, base_trace, _, _ = bw.run(call, {})
-            plans = single_plans(base_trace)
-            runs = [(p,) + bw.run(call, p)[:2] for p in plans]
-            lines = [dict(bw.spec, op="world")] + [line_for(call, p, o, len(t)) for p, o, t in runs]
-            outs = ctx.driver().batch(lines)[1:]
-            for (p, o, t), m in zip(runs, outs):
-                i2 = {"world": bw.spec, "call": call, "plan": p}
-                if _violates(i2, o, m) and not in_parents_region(i2, o, m.get("spec", {})) \
-                        and not (FINDING_PROBE in KNOWN_IDS(ctx) and in_probe_region(i2, o, t)):
-                    return dict(d, input=i2, impl=o, model=m.get("model"), spec=m.get("spec"),
-                                note="shrunk: %s under %s gives %s; access trace %s" % (call["method"], json.dumps(p), json.dumps(o), t))
-        finally:
-            bw.close()
+    for depth in (1, 2):
+        for spec in cands:
+            bw = BuiltWorld(ps, spec)
+            try:
+                for call in calls:
+                    base_out, base_trace, _, _ = bw.run(call, {})
+                    plans = single_plans(base_trace)
+                    if depth == 2:
+                        if len(base_trace) > 12:
+                            continue
+                        plans = [p2 for p in plans for p2 in double_plans(p, bw.run(call, p)[1])]
+                    runs = [(p,) + bw.run(call, p)[:2] for p in plans]
+                    lines = [dict(bw.spec, op="world")] + [line_for(call, p, o, len(t)) for p, o, t in runs]
+                    outs = ctx.driver().batch(lines)[1:]
+                    for (p, o, t), m in zip(runs, outs):
+                        i2 = {"world": bw.spec, "call": call, "plan": p}
+                        if _violates(i2, o, m) and not in_parents_region(i2, o, m.get("spec", {})) \
+                                and not (FINDING_PROBE in KNOWN_IDS(ctx) and in_probe_region(i2, o, t)):
+                            return dict(d, input=i2, impl=o, model=m.get("model"), spec=m.get("spec"),
+                                        note="shrunk: %s under %s gives %s; access trace %s" % (call["method"], json.dumps(p), json.dumps(o), t))
+            finally:
+                bw.close()
     return d
 
 
